@@ -18,6 +18,7 @@ from ..lib.storeimpl import Impl, BadOp, TRACKED
 from . import c12_sweep as SW
 from . import c12_vec as VEC
 from ..extract import writeorder as _wo
+from ..extract import mutorder as _mo
 
 PROP = "C12"
 LEAN_MODULE = "NixModel.Props.C12"
@@ -42,6 +43,9 @@ THEOREMS = [
     "Nix.C12.vector_setters_refused_unchanged",
     "Nix.C12.property_values_refused_unchanged",
     "Nix.C12.write_order_matters",
+    "Nix.C12.mutators_validate_first",
+    "Nix.C12.mutator_paths_refused_unchanged",
+    "Nix.Order.safePath_refused_unchanged",
 ]
 ASSUMPTIONS = [
     "uuid4 ids are drawn from an abstract fresh supply; no link of the file is named like an id not yet drawn "
@@ -67,7 +71,11 @@ TRUSTED_EXTRA = ["harness/lib/storeimpl.py + storegen.py (path addressing by ite
                  "harness/props/c12.py FAULTS table (concrete invalid argument -> stage and error class)",
                  "harness/extract/writeorder.py renders H5Group.write_data and the position / extent / polynom_coefficients / "
                  "Property.values setters statement by statement as step lists (any unrecognised statement is a broken tie)",
-                 "harness/props/c12_vec.py ELEMS table (concrete element -> typeOk / convOk / h5Ok)"]
+                 "harness/props/c12_vec.py ELEMS table (concrete element -> typeOk / convOk / h5Ok)",
+                 "harness/extract/mutorder.py classifies the calls in the bodies of the public mutators (validation / "
+                 "primitive write / refusable call / protected section) by name; the abstract execution of Pure/Order.lean "
+                 "(only validations and refusable calls raise, a protected section restores the file) is a model of that "
+                 "discipline, not of h5py"]
 READY = True
 MANIFEST = {
     "level_text": "Kernel-checked theorems over two Lean models tied to the source. (1) nixio's creating/mutating API "
@@ -84,6 +92,11 @@ MANIFEST = {
                   "leaves dataset and updated_at unchanged, an accepted one stores the converted values; moving the resize "
                   "before the conversion or narrowing the conversion's condition in the source breaks lake build on named "
                   "theorems (write_order_matters proves both variants wrong on the model). "
+                  "(3) Generated/MutatorOrder.lean lists, for each of the ~115 public mutators of the anchored modules, the "
+                  "events (validation, raise, primitive write, refusable call, protected section) along every path through "
+                  "its body; mutators_validate_first proves by evaluation that all but 15 named ones never validate, raise "
+                  "or call a refusable mutator after an unprotected write, and safePath_refused_unchanged that this "
+                  "discipline implies refused => unchanged in the abstract execution, for every oracle of failures. "
                   "Tied to the code by differential execution: random histories with injected invalid calls (HDF5-level "
                   "dump after the refusal compared with the writer model's reached graph, then the same call with a valid "
                   "argument) and random vector assignments (dataset read back with h5py). An implementation-side oracle "
@@ -92,7 +105,9 @@ MANIFEST = {
                   "the value x short / long stored state; quick tier: a stratified part, thorough: most of it).",
     "level_note": "Trusted: Lean kernel; standard axioms; the correspondence harness with its fault table and element table; "
                   "the two translators' reading of the statements; h5py/HDF5 link and resize semantics modelled, not "
-                  "verified. Partial: array data and frame contents are leaf nodes - refusals of DataSet.append, "
+                  "verified; the event classification of mutorder.py is by method name and the 15 mutators listed in "
+                  "Props/C12.lean `writesFirst` are exempt from the order theorem (covered by the writer model or the oracle "
+                  "only). Partial: array data and frame contents are leaf nodes - refusals of DataSet.append, "
                   "write_direct, __setitem__, data_extent, DataFrame writes, dimension setters (ticks, labels, unit, label, "
                   "offset, interval), dimension links, Property attribute setters, Section item assignment, copy_from "
                   "creation and File-level deletes have no theorem: they are checked by the oracle (catalogue + spelling "
@@ -110,7 +125,9 @@ MANIFEST = {
 
 
 def extract(repo):
-    return _wo.extract(repo)
+    files = dict(_wo.extract(repo))
+    files.update(_mo.extract(repo))
+    return files
 
 
 TRACKED12 = TRACKED + ("dimension_type",)
@@ -816,7 +833,9 @@ def _catalogue():
     O = lambda: [object(), object()]                # noqa
     C = []
 
-    def add(label, call, retry=None):
+    def add(label, call, retry=None, setup=None):
+        if setup is not None:
+            call.setup = setup              # valid calls made before the snapshot is taken
         C.append((label, call, retry))
     # --- the refused calls of DESIGN section 6, D10 / D17 (kept as regression cases) and their relatives
     for (st, er, var), kw in sorted(DA_FAULTS.items()):
@@ -882,8 +901,8 @@ def _catalogue():
     add("DataArray.polynom_coefficients:ndarray-bytes-shorter",
         lambda c: _set(c["da"], "polynom_coefficients", np.array([b"x"])))
     add("RangeDimension.ticks:complex-longer", lambda c: _set(c["rd"], "ticks", [1j, 2j, 3j]))
-    add("RangeDimension.ticks:complex-on-linked", lambda c: (c["rd"].link_data_array(c["da"], [0, -1]),
-                                                            _set(c["rd"], "ticks", [1j, 2j, 3j]))[1])
+    add("RangeDimension.ticks:complex-on-linked", lambda c: _set(c["rd"], "ticks", [1j, 2j, 3j]),
+        setup=lambda c: c["rd"].link_data_array(c["da"], [0, -1]))
     add("SetDimension.link_data_frame:index-array", lambda c: c["sd"].link_data_frame(c["df"], np.array([1.0], dtype=object)),
         lambda c: c["sd"].link_data_frame(c["df"], 1))
     add("RangeDimension.link_data_frame:index-array", lambda c: c["rd"].link_data_frame(c["df"], np.array([0.0], dtype=object)))
@@ -1043,6 +1062,8 @@ def run_case(ctx, label, call, retry, tag="cat"):
 
 
 def _check_call(f, c, label, call, retry):
+    if getattr(call, "setup", None) is not None:
+        _quiet(lambda: call.setup(c))
     before, wbefore = snapshot(f), walk(f)
     try:
         _quiet(lambda: call(c))
